@@ -78,9 +78,9 @@ theorem inv_pick {σ : Type} (s0 : σ) (c : Cfg σ) (i : Nat) (hl : AllLocked c)
       simp only
       have hsl : sec.locked = true := (hl i).2 sec (by rw [htodo]; exact List.mem_cons_self)
       cases hown : c.owner with
-      | some k => simp [hsl, hown]; exact ⟨hl, hs⟩
+      | some k => simp [hsl]; exact ⟨hl, hs⟩
       | none =>
-        simp only [hsl, hown, Option.isSome_none, Bool.and_false, Bool.false_eq_true, if_false, if_true]
+        simp only [hsl, Option.isSome_none, Bool.and_false, Bool.false_eq_true, if_false, if_true]
         refine ⟨?_, ?_⟩
         · intro j
           by_cases hj : j = i
@@ -134,7 +134,7 @@ theorem inv_pick {σ : Type} (s0 : σ) (c : Cfg σ) (i : Nat) (hl : AllLocked c)
             · subst hj; simp [upd_self]
             · rw [upd_ne _ _ hj]; exact hothers j hj
           · rw [hst, hlog, hsteps]
-            simp [runSecs_append, runSecs]
+            simp [runSecs]
       | cons f fs =>
         simp only
         refine ⟨?_, ?_⟩
@@ -145,7 +145,7 @@ theorem inv_pick {σ : Type} (s0 : σ) (c : Cfg σ) (i : Nat) (hl : AllLocked c)
             exact ⟨fun _ h => (by cases h; exact hsl), (hl j).2⟩
           · simp only [upd_ne _ _ hj]; exact hl j
         · unfold Shape
-          simp only [hown]
+          simp only
           refine ⟨⟨sec.locked, fs⟩, done ++ [f], tl, by simp [upd_self], ?_, ?_, ?_⟩
           · intro j hj; rw [upd_ne _ _ hj]; exact hothers j hj
           · rw [hlog, hsteps]; simp
